@@ -71,10 +71,14 @@ CHECKS = {
         text="(A) one really failing element (ill-formed / failing expression, send with unsupported type, malformed target or unknown invoke id, failing <if> condition, "
              "failing <data>, promela division by zero) planted at a sampled position of a sampled executable block of a generated chart; the run is refined step by step "
              "against the Appendix D model that is told which element fails: error event raised in order, rest of the block skipped, other blocks executed, interpreter "
-             "keeps running, no exception leaves step(). (B) seeded XML mutations of generated charts loaded and stepped under crash containment; a third of all runs in the "
-             "ASan+UBSan build.",
+             "keeps running, no exception leaves step(). (B) seeded XML mutations of generated charts loaded and stepped under crash containment. (F) a failing element "
+             "inside <finalize> of an invoke whose child sends n events: finalize runs up to the failing element for every event, the event is still processed, one error "
+             "event each, the interpreter answers afterwards. (T) transient faults: the real Lua/Promela datamodel behind a decorator that makes seeded datamodel calls "
+             "issued from executable content fail (evalAsData, evalAsBool, assign, eval); every injected fault is recorded, and the run is refined against the model that is "
+             "told which execution of which element (for <if>: which condition) failed. A third of all runs in the ASan+UBSan build.",
         ref="DESIGN.md 6/C07",
-        note="fault positions are sampled (one per run), not enumerated per chart; transient datamodel failures (FaultyDataModel) are not built; failing transition conditions are not planted.",
+        note="fault positions are sampled (one per run in mode A, a seeded rate of 3-20% of the datamodel calls in mode T), not enumerated per chart; transient faults are "
+             "injected inside executable content only (not into transition conditions, data initialisation or setEvent); failing transition conditions are not planted; donedata is not covered.",
         technique=TECH + "planted failing elements and XML mutations over simulated histories, refinement against a fault-aware reference model, crash containment with sanitizers"),
     "C13": dict(
         level="exploration",
